@@ -3,13 +3,15 @@ import JominiModel.Model.BinReader
 import JominiModel.Spec.BinLexer
 import JominiModel.Proofs.BinLexer
 import JominiModel.Proofs.Buffer
+import JominiModel.Spec.BinReader
+import JominiModel.Proofs.BinReader
 import JominiModel.Generated.Tables
 /-
 C08 — Streaming binary reader equals the slice lexer; token encoding round-trips.
 Only property theorems live here; helper lemmas are in `Proofs/`.
 -/
 namespace Jomini.Props.C08
-open Jomini Jomini.BinLexer
+open Jomini Jomini.BinLexer Jomini.BinReader
 
 /-- the model's 13 lexeme id constants are the ones measured from the compiled code, and
 `isId` is false on exactly the measured reserved set (`LexemeId::is_id` probed on all 65536
@@ -101,5 +103,52 @@ theorem C08_Buffer_refines_init (buffer data : Bytes) (sched : List Step) :
   ⟨Buf.inv_build buffer data sched, Buf.inv_fromSlice data⟩
 
 example : Src.WfSched [.give 3, .fail, .give 1, .failForever] := by simp [Src.WfSched]
+
+/-- **Streaming reader = slice lexer.**  For every input, every buffer (fresh or recycled,
+any initial contents) in which every token of the input fits (`Fits`, see `Spec/BinReader`;
+`buffer.length ≥ 65539` always suffices for the tokens themselves) and every fault-free read
+schedule (any chunking down to one byte per read), `while let Some(t) = reader.next()?`
+yields exactly the tokens of the slice lexer, ends the same way (clean end / `Eof` /
+`InvalidRgb`, never `BufferFull` or an I/O error) and stops at the same byte position; at a
+clean end that position is `|data|` and every byte has been delivered.
+This is the fault-free corollary of `C20_bin_reader` (same one-call lemma `next_spec`). -/
+theorem C08_stream_eq_lexer (buffer data : Bytes) (sched : List Step) (hcap : 0 < buffer.length)
+    (hwf : Src.WfSched sched) (hnf : Src.NoFaults sched) (hfit : Fits buffer.length data) :
+    (Reader.streamAll (Reader.build buffer (Src.new data sched))).1 = (lexAll data).1 ∧
+    (Reader.streamAll (Reader.build buffer (Src.new data sched))).2.1 = embed (lexAll data).2.1 ∧
+    (Reader.streamAll (Reader.build buffer (Src.new data sched))).2.2.position
+      = data.length - (lexAll data).2.2.length ∧
+    ((lexAll data).2.1 = .done →
+      (Reader.streamAll (Reader.build buffer (Src.new data sched))).2.2.position = data.length ∧
+      (Reader.streamAll (Reader.build buffer (Src.new data sched))).2.2.src.rest = []) :=
+  streamAll_eq data _ (rinv_build buffer data sched hcap hwf) rfl (Or.inr hfit) hnf
+
+/-- the same for `TokenReader::from_slice` (no buffer, no schedule, no hypothesis) -/
+theorem C08_slice_eq_lexer (data : Bytes) :
+    (Reader.streamAll (Reader.fromSlice data)).1 = (lexAll data).1 ∧
+    (Reader.streamAll (Reader.fromSlice data)).2.1 = embed (lexAll data).2.1 ∧
+    (Reader.streamAll (Reader.fromSlice data)).2.2.position = data.length - (lexAll data).2.2.length :=
+  let h := streamAll_eq data _ (rinv_fromSlice data) rfl (Or.inl rfl) (by simp [Reader.fromSlice, Src.new, Src.NoFaults])
+  ⟨h.1, h.2.1, h.2.2.1⟩
+
+/-- The general statement over schedules *with* fault steps (the C20 theorem, restated here so
+that it is audited with this property): see `C20_bin_reader` in `Proofs/BinReader.lean`. -/
+theorem C08_stream_with_faults (buffer data : Bytes) (sched : List Step) (hcap : 0 < buffer.length)
+    (hwf : Src.WfSched sched) (hfit : Fits buffer.length data) (n : Nat) :
+    callToks (Reader.calls n (Reader.build buffer (Src.new data sched))).1 <+: (lexAll data).1 ∧
+    (Call.done ∈ (Reader.calls n (Reader.build buffer (Src.new data sched))).1 →
+      callToks (Reader.calls n (Reader.build buffer (Src.new data sched))).1 = (lexAll data).1 ∧
+      (lexAll data).2.1 = .done) ∧
+    (∀ e, Call.err (.lexer e) ∈ (Reader.calls n (Reader.build buffer (Src.new data sched))).1 →
+      callToks (Reader.calls n (Reader.build buffer (Src.new data sched))).1 = (lexAll data).1 ∧
+      (lexAll data).2.1 = .err e) ∧
+    (Call.err .bufferFull ∉ (Reader.calls n (Reader.build buffer (Src.new data sched))).1 ∧
+     Call.err .ub ∉ (Reader.calls n (Reader.build buffer (Src.new data sched))).1 ∧
+     Call.err .fuel ∉ (Reader.calls n (Reader.build buffer (Src.new data sched))).1) ∧
+    ((Reader.calls n (Reader.build buffer (Src.new data sched))).2.position ≤
+      (Reader.calls n (Reader.build buffer (Src.new data sched))).2.src.delivered ∧
+     (Reader.calls n (Reader.build buffer (Src.new data sched))).2.src.delivered +
+      (Reader.calls n (Reader.build buffer (Src.new data sched))).2.src.rest.length = data.length) :=
+  C20_bin_reader buffer data sched hcap hwf hfit n
 
 end Jomini.Props.C08
